@@ -1,7 +1,8 @@
 (* C04: common-prefix search returns exactly the keys that are prefixes of the query (shortest first, with
    lookup's ids, text = the prefix of q), then false forever; q is never read at or beyond |q|
    (that would be Fault OobQuery, excluded by "= Ok ..."). Iterator and callback entry points. *)
-From X Require Import Builder IfaceBuild Base Arr Dac Trie Spec Wf IfaceQuery All AllBuild Examples ExampleFacts.
+From X Require Import Builder IfaceBuild Base Arr Dac Trie Spec Wf IfaceQuery All AllBuild Examples ExampleFacts
+  AccessLib AccessGen AccessDispatch AccessTrieGen IfaceAccessTrie AllAccessTrie.
 Local Open Scope N_scope.
 
 Theorem C04_prefix_search : forall v L P K, wf_for v L P K -> forall q, bytes_ok q = true ->
@@ -16,6 +17,21 @@ Theorem C04_for_all_valid_K : forall v tbl K req, valid_keys K = true -> small_k
   prefix_search P q = Ok (with_ids P (spec_prefixes K q)).
 Proof. exact headline_prefix. Qed.
 
+(* the same for trie::next_prefix as REGENERATED FROM trie.hpp on every run (AccessTrieGen.trg_next_prefix): n successive
+   advances of a fresh iterator over q (pfx_calls_g) give the spec's list, then false forever *)
+Theorem C04_source_prefix_iterator : forall v L P K, wf_for v L P K -> forall q, bytes_ok q = true -> lenN q < 2^64 ->
+  forall n, pfx_calls_g P (mk_prefix q) n = Ok (abs_calls (with_ids P (spec_prefixes K q)) n).
+Proof. exact src_prefix. Qed.
+Theorem C04_source_for_all_valid_K : forall v tbl K req, valid_keys K = true -> small_keys K -> perm_okb tbl = true ->
+  exists P, build v tbl K req = Ok P /\ forall q, bytes_ok q = true -> lenN q < 2^64 ->
+  forall n, pfx_calls_g P (mk_prefix q) n = Ok (abs_calls (with_ids P (spec_prefixes K q)) n).
+Proof. exact src_headline_prefix. Qed.
+Example C04_source_example : match ex_trie V8 with
+  | Ok P => match pfx_calls_g P (mk_prefix [97; 98; 99; 100; 101]) 6 with
+            | Ok l => map (option_map snd) l = [Some []; Some [97]; Some [97; 98]; Some [97; 98; 99; 100]; None; None] | _ => False end
+  | _ => False end.
+Proof. vm_compute. reflexivity. Qed.
+
 Example C04_nonvacuous : forall v, exists L P, ex_logical v = Ok L /\ wf_for v L P ex_keys.
 Proof. exact ex_wf_for. Qed.
 Example C04_example : match ex_trie V8 with
@@ -25,3 +41,4 @@ Proof. vm_compute. reflexivity. Qed.
 
 Print Assumptions C04_prefix_search.
 Print Assumptions C04_for_all_valid_K.
+Print Assumptions C04_source_prefix_iterator. Print Assumptions C04_source_for_all_valid_K.
